@@ -16,7 +16,7 @@ use refchess::Pos;
 use serde_json::{json, Value};
 use std::time::Duration;
 
-pub const RULE: &str = "Layer A (in-process, model-based): op lists of 1..12 ops over one engine — NewGame, Resume (the position command that was current before the last ucinewgame, sent again, continued by 0..2 plies), SetPos (position command with FEN and move list; small positions, mates and stalemates included), Play(k plies of the same game, or one out-and-back cycle of reversible moves after which the same placement stands without its en-passant right), Search{depth 1..4, budget None | Nodes(k)} where k ranges over 0..2x the node count of the previous completed search (expiry before the first node, inside depth 1, between iterations, inside the last iteration; Nodes(0) is the image of 'movetime 0' / a clock at or below the reserve). Invariant after every Search: the returned move is a reference-legal move of the CURRENT position iff one exists, and none iff there is none. Layer B (black-box): scripts of ucinewgame?, 1..5 rounds of position + go (depth 1..3 pre-screened; movetime in {0,1,3,10,40}; clock sets wtime,btime 0..12000 with increments in any order, on both sides of the 5 s reserve) + isready; between consecutive readyok barriers exactly one line starts with 'bestmove', its move is legal in the position last set, or 0000 iff that position has no legal move. Non-trivial = a search on a position with >=2 legal moves that follows >=1 earlier search in the same engine/process or runs under a budget that expires before the requested depth completes; distinct by (history of ops / script text).";
+pub const RULE: &str = "Layer A (in-process, model-based): op lists of 1..12 ops over one engine — NewGame, Resume (the position command that was current before the last ucinewgame, sent again, continued by 0..2 plies), SetPos (position command with FEN and move list; small positions, mates and stalemates included), Play(k plies of the same game, or one out-and-back cycle of reversible moves after which the same placement stands without its en-passant right), Search{depth 1..4, budget None | Nodes(k)} where k ranges over 0..2x the node count of the previous completed search (expiry before the first node, inside depth 1, between iterations, inside the last iteration; Nodes(0) is the image of 'movetime 0' / a clock at or below the reserve). A seventh of the cases (and all cases of the part 'twins') open with the twin scenario: a position with a legal en-passant capture or castle is searched, then the same placement without that right is set on the same engine and searched no deeper. Invariant after every Search: the returned move is a reference-legal move of the CURRENT position iff one exists, and none iff there is none. Layer B (black-box): scripts of ucinewgame?, 1..5 rounds of position + go (depth 1..3 pre-screened; movetime in {0,1,3,10,40}; clock sets wtime,btime 0..12000 with increments in any order, on both sides of the 5 s reserve) + isready; between consecutive readyok barriers exactly one line starts with 'bestmove', its move is legal in the position last set, or 0000 iff that position has no legal move. Non-trivial = a search on a position with >=2 legal moves that follows >=1 earlier search in the same engine/process or runs under a budget that expires before the requested depth completes; distinct by (history of ops / script text).";
 
 #[derive(Debug, Clone)]
 enum Op {
@@ -26,6 +26,19 @@ enum Op {
     SetPos(String, Pos),
     Play(usize),
     Search { depth: u8, budget: Option<u64> },
+}
+
+thread_local! {
+    /// share of layer-A cases that open with the twin-position scenario
+    static TWIN_PCT: std::cell::Cell<usize> = std::cell::Cell::new(14);
+}
+
+/// Layer A restricted to cases that open with the twin-position scenario.
+fn part_twins(bytes: &[u8], stats: &mut Stats) -> Verdict {
+    TWIN_PCT.with(|c| c.set(100));
+    let r = part_a(bytes, stats);
+    TWIN_PCT.with(|c| c.set(14));
+    r
 }
 
 /// Twin positions: (command, position) with a legal en-passant capture or castling move, and the
@@ -97,7 +110,7 @@ fn part_a(bytes: &[u8], stats: &mut Stats) -> Verdict {
     // searched no deeper.  Whatever the engine remembered about the first position must not leak
     // into the answer for the second.
     let mut scripted: std::collections::VecDeque<Op> = std::collections::VecDeque::new();
-    if s.chance(14) {
+    if s.chance(TWIN_PCT.with(|c| c.get())) {
         if let Some((cmd1, p1, cmd2, p2)) = gen_twins(&mut s) {
             let d1 = 1 + s.below(4) as u8;
             let d2 = 1 + s.below(d1 as usize) as u8;
@@ -436,6 +449,13 @@ pub fn run(tier: Tier, seed: u64, known: &Known) -> PropRun {
         run.failure = fl;
         return run;
     }
+    let part = Part { name: "twins", cases: tier.pick(2_500, 60_000), min_len: 24, max_len: 500, max_shrink: 300, threads: threads() };
+    let (st, fl) = run_part(&part, seed, known, part_twins);
+    run.stats.merge(st);
+    if fl.is_some() {
+        run.failure = fl;
+        return run;
+    }
     if crate::blackbox::engine_path().is_none() {
         run.inconclusive = Some("engine binary not built".into());
         return run;
@@ -504,6 +524,7 @@ pub fn replay(part: &str, bytes: &[u8], case: &Value, stats: &mut Stats) -> Verd
         return judge_script(&lines, stats);
     }
     match part {
+        "twins" => part_twins(bytes, stats),
         "B" => part_b(bytes, stats),
         _ => part_a(bytes, stats),
     }
